@@ -3,7 +3,215 @@ list of events ('cond', node, truth) / ('call', name, node) / ('ret', node)."""
 from . import expr as X
 
 
-def enumerate_paths(fn, limit=4096, noreturn=()):
+def subst_params(node, mapping):
+    """deep copy of an AST node with references to the parameters in `mapping` (decl id -> node) replaced"""
+    if isinstance(node, list):
+        return [subst_params(x, mapping) for x in node]
+    if not isinstance(node, dict):
+        return node
+    if node.get("k") == "ref" and node.get("rk") == "param" and node.get("d") in mapping:
+        return mapping[node["d"]]
+    return {k: (subst_params(v, mapping) if isinstance(v, (dict, list)) else v) for k, v in node.items()}
+
+
+def inlinable(g):
+    """a helper whose paths can be spliced into its callers': it has a body and a CFG, and never writes or takes the address of
+    one of its own parameters (so a parameter can be replaced by the argument expression)"""
+    from .facts import walk
+    if g is None or g.body is None or g.cfg is None:
+        return False
+    pds = {p["d"] for p in g.params}
+    for x in walk(g.body):
+        if x.get("k") == "assign" or (x.get("k") == "un" and x.get("op") in ("++", "--", "&")):
+            t = X.strip(x["ch"][0])
+            if t is not None and t.get("k") == "ref" and t.get("d") in pds:
+                return False
+    return True
+
+
+def dnf(cond, truth, depth=0):
+    """[[(atomic condition node, truth)]]: the ways `cond` can evaluate to `truth`, flag locals (flagdef) replaced by the
+    condition they stand for and logical operators split, so that each alternative is a conjunction of atomic tests"""
+    n = X.strip(cond)
+    if n is None or depth > 12:
+        return [[(cond, truth)]]
+    k = n.get("k")
+    if k == "ref" and n.get("flagdef") is not None:
+        return dnf(n["flagdef"], truth, depth + 1)
+    if k == "un" and n.get("op") == "!":
+        return dnf(n["ch"][0], not truth, depth + 1)
+    if k == "bin" and n.get("op") in ("&&", "||"):
+        a, b = n["ch"]
+        conj = (n["op"] == "&&") == truth        # both sides must have the value `truth`
+        if conj:
+            return [x + y for x in dnf(a, truth, depth + 1) for y in dnf(b, truth, depth + 1)]
+        return dnf(a, truth, depth + 1) + [x + y for x in dnf(a, not truth, depth + 1) for y in dnf(b, truth, depth + 1)]
+    if k == "cond":
+        tv, fv = X.const_val(n["ch"][1]), X.const_val(n["ch"][2])
+        if tv is not None and fv is not None and bool(tv) != bool(fv):
+            return dnf(n["ch"][0], truth == bool(tv), depth + 1)
+    if k == "bin" and n.get("op") in ("!=", "==") and X.const_val(n["ch"][1]) == 0:
+        x = X.strip(n["ch"][0])
+        if x is not None and (x.get("flagdef") is not None or (x.get("k") == "bin" and x.get("op") in ("&&", "||", "<", ">", "<=", ">=", "==", "!="))
+                              or (x.get("k") == "un" and x.get("op") == "!") or x.get("k") == "cond"):
+            return dnf(x, truth == (n["op"] == "!="), depth + 1)
+    return [[(cond, truth)]]
+
+
+def _consistent(path):
+    """no two tests of the path contradict each other on the NULL-ness / constant value of a variable that was not assigned
+    in between"""
+    facts_ = {}
+    for ev in path:
+        if ev[0] == "assign":
+            l = X.apath(ev[2]["ch"][0])
+            copied = None
+            if ev[2].get("op") == "=" and l is not None:
+                r0 = X.apath(ev[2]["ch"][1])
+                if r0 is not None and r0 in facts_ and facts_[r0][0] in ("nn", "null"):
+                    copied = (facts_[r0][0], l)          # a plain copy carries the NULL-ness of its source
+            if l is not None:
+                def hit(k_):
+                    if isinstance(k_, tuple) and k_[0] == "c":
+                        return l.split("-")[0].split(".")[0].split("[")[0] in facts_[k_][1]
+                    k_ = k_[1] if isinstance(k_, tuple) else k_
+                    return k_ == l or k_.startswith(l + "-") or k_.startswith(l + ".") or k_.startswith(l + "[")
+                for key in [k_ for k_ in facts_ if hit(k_)]:
+                    del facts_[key]
+            if copied is not None:
+                facts_[l] = copied
+            if l is None or not l.startswith("d") or "-" in l or "[" in l or "." in l:
+                # a store to memory / a global: tests that read memory are no longer known
+                for key in [k_ for k_, v_ in facts_.items() if isinstance(k_, tuple) and k_[0] == "c" and v_[2]]:
+                    del facts_[key]
+        elif ev[0] == "call":
+            # a call can change any global / memory a test read (the message printers and the libc routines without an effect on
+            # this library's globals excepted)
+            import re as _re
+            from .facts import LIBC_NO_GLOBAL_EFFECT
+            if not (_re.match(r"libast_(fatal_error|print_warning|print_error|dprintf)$", ev[1] or "?") or ev[1] in LIBC_NO_GLOBAL_EFFECT):
+                for key in [k_ for k_, v_ in facts_.items() if isinstance(k_, tuple) and k_[0] == "c" and v_[2]]:
+                    del facts_[key]
+        elif ev[0] == "cond" and not isinstance(ev[2], tuple):
+            # the same side-effect-free test evaluated twice with nothing it reads written in between has the same outcome
+            from .facts import walk
+            c0 = X.strip(ev[1])
+            if c0 is not None and not any(y.get("k") in ("assign", "call", "stmtexpr") or (y.get("k") == "un" and y.get("op") in ("++", "--"))
+                                          for y in walk(c0)):
+                key = ("c", X.render(c0))
+                vars_ = {("d%d" % y["d"]) for y in walk(c0) if y.get("k") == "ref" and y.get("rk") in ("local", "param")}
+                mem_ = any((y.get("k") == "ref" and y.get("rk") == "global") or y.get("k") in ("member", "index") or
+                           (y.get("k") == "un" and y.get("op") == "*") for y in walk(c0))
+                old = facts_.get(key)
+                if old is not None and old[0] != ev[2]:
+                    return False
+                facts_[key] = (ev[2], vars_, mem_)
+            for f in X.implied(ev[1], ev[2]):
+                if f[0] in ("nn", "null"):
+                    old = facts_.get(f[1])
+                    if old is not None and old[0] in ("nn", "null") and old[0] != f[0]:
+                        return False
+                    facts_[f[1]] = f
+                elif f[0] in ("true", "false"):
+                    old = facts_.get(("t", f[1]))
+                    if old is not None and old != f[0]:
+                        return False
+                    facts_[("t", f[1])] = f[0]
+    return True
+
+
+def expand_flag_tests(ps, limit=4096):
+    """every path with its tests of flag locals / compound conditions replaced by the atomic tests they stand for (one path
+    per alternative), contradictory alternatives dropped"""
+    out = []
+    for p in ps:
+        alts = [[]]
+        for ev in p:
+            if ev[0] == "cond" and not isinstance(ev[2], tuple):
+                d = dnf(ev[1], ev[2])
+                if len(d) == 1 and len(d[0]) == 1 and d[0][0][0] is ev[1]:
+                    alts = [a + [ev] for a in alts]
+                else:
+                    alts = [a + [("cond", c_, t_) for c_, t_ in alt] for a in alts for alt in d]
+                    if len(alts) > limit:
+                        alts = alts[:limit]
+            else:
+                alts = [a + [ev] for a in alts]
+        out.extend(a for a in alts if _consistent(a))
+    return out
+
+
+def enumerate_paths(fn, limit=4096, noreturn=(), inline=None, expand=False, _depth=0):
+    """inline: {name: Function} helpers whose own paths are spliced in at their call sites (parameters replaced by the
+    argument expressions; the helper's return shows as ('hret', return node, call node));  expand: see expand_flag_tests"""
+    ps = _enumerate_paths(fn, limit, noreturn)
+    if inline and _depth < 3:
+        res = []
+        for p in ps:
+            alts = [[]]
+            for ev in p:
+                g = inline.get(ev[1]) if ev[0] == "call" else None
+                if g is not None and g is not fn and inlinable(g):
+                    args = ev[2]["ch"][1:]
+                    mapping = {pp["d"]: args[i] for i, pp in enumerate(g.params) if i < len(args)}
+                    gps = enumerate_paths(g, limit, noreturn, inline={k: v for k, v in inline.items() if k != g.name}, _depth=_depth + 1)
+                    new = []
+                    for gp in gps:
+                        seq = []
+                        ended = False
+                        for gev in gp:
+                            if gev[0] == "cond":
+                                seq.append(("cond", subst_params(gev[1], mapping), gev[2]))
+                            elif gev[0] == "call":
+                                seq.append(("call", gev[1], subst_params(gev[2], mapping)))
+                            elif gev[0] == "assign":
+                                seq.append(("assign", gev[1], subst_params(gev[2], mapping)))
+                            elif gev[0] == "ret":
+                                seq.append(("hret", subst_params(gev[1], mapping), ev[2]))
+                            elif gev[0] == "noreturn":
+                                seq.append(gev)
+                                ended = True
+                            else:
+                                seq.append(gev)
+                        new.append((seq, ended))
+                    nxt = []
+                    for a in alts:
+                        if a and a[-1] == ("noreturn",):
+                            nxt.append(a)
+                            continue
+                        for seq, ended in new:
+                            nxt.append(a + [("call", ev[1], ev[2])] + seq)
+                    alts = nxt[:limit]
+                else:
+                    alts = [a if (a and a[-1] == ("noreturn",)) else a + [ev] for a in alts]
+            res.extend(alts)
+        # the value a spliced helper returned stands where the caller used the call's result (temp = helper(..); return helper(..))
+        ps = []
+        for a in res:
+            hv = {}
+            b = []
+            for ev in a:
+                if ev[0] == "hret":
+                    if ev[1].get("val") is not None:
+                        hv[id(ev[2])] = ev[1]["val"]
+                    b.append(ev)
+                elif ev[0] == "assign" and ev[2].get("op") == "=" and id(X.strip(ev[2]["ch"][1])) in hv:
+                    n2 = dict(ev[2])
+                    n2["ch"] = [ev[2]["ch"][0], hv[id(X.strip(ev[2]["ch"][1]))]]
+                    b.append(("assign", ev[1], n2))
+                elif ev[0] == "ret" and ev[1].get("val") is not None and id(X.strip(ev[1]["val"])) in hv:
+                    n2 = dict(ev[1])
+                    n2["val"] = hv[id(X.strip(ev[1]["val"]))]
+                    b.append(("ret", n2))
+                else:
+                    b.append(ev)
+            ps.append(b)
+    if expand:
+        ps = expand_flag_tests(ps, limit)
+    return ps
+
+
+def _enumerate_paths(fn, limit=4096, noreturn=()):
     cfg = fn.cfg
     nodes = fn.nodes
     out = []
